@@ -9,6 +9,7 @@ package operationparser
 import (
 	"encoding/json"
 	"fmt"
+	"math"
 
 	"github.com/pkg/errors"
 
@@ -272,6 +273,12 @@ func (p *Parser) validateNonce(nonce string) error {
 
 func (p *Parser) getAnchorUntil(from, until int64) int64 {
 	if from != 0 && until == 0 {
+		// anchorFrom plus the maximum operation time delta, without wrapping around: a delta too large for the sum
+		// (an operator's "never expires") gives a window that never closes
+		if p.MaxOperationTimeDelta > math.MaxInt64 || from > math.MaxInt64-int64(p.MaxOperationTimeDelta) {
+			return math.MaxInt64
+		}
+
 		return from + int64(p.MaxOperationTimeDelta)
 	}
 
